@@ -67,6 +67,9 @@ func run(r *mon.Report, tier string, idx int, rng *rand.Rand) {
 	opts, optDesc := common.RandomOptions(rng)
 	cfg.Options = opts
 	cfg.MaxDaemons = 2
+	// odd cases: a DaemonSet that only part of the instance types can run (several daemon overhead groups per template;
+	// seeded change C13-e); even cases keep their PRNG stream
+	cfg.SelectiveDaemons = idx%2 == 1
 	cfg.Catalog.MinTypes, cfg.Catalog.MaxTypes = 4, 10
 	cfg.Catalog.PUnavailable = 0.1
 	s := common.Build(rng, cfg)
@@ -389,49 +392,62 @@ func judge(r *mon.Report, s *common.Scenario, np *v1.NodePool, nc *provschedulin
 		for _, p := range nc.Pods {
 			oracle.Add(total, oracle.PodRequests(p))
 		}
-		var minDaemon corev1.ResourceList
 		byName := map[string]*cloudprovider.InstanceType{}
 		for _, it := range s.Types[np.Name] {
 			byName[it.Name] = it
 		}
-		for _, n := range sent {
-			it := byName[n]
-			if it == nil {
-				continue
-			}
-			for _, of := range it.Offerings.Available() {
-				lbls := common.TypeLabels(it, of)
-				for k, v := range created.Labels {
-					lbls[k] = v
+		// smallest true daemon overhead among the given types (over their available offerings)
+		minOver := func(names []string) corev1.ResourceList {
+			var minDaemon corev1.ResourceList
+			for _, n := range names {
+				it := byName[n]
+				if it == nil {
+					continue
 				}
-				cn := oracle.ConcreteNode{Labels: lbls, Taints: created.Spec.Taints}
-				d := corev1.ResourceList{}
-				for _, dp := range daemons {
-					if oracle.DaemonAdmissible(dp, cn) {
-						oracle.Add(d, oracle.PodRequests(dp))
+				for _, of := range it.Offerings.Available() {
+					lbls := common.TypeLabels(it, of)
+					for k, v := range created.Labels {
+						lbls[k] = v
 					}
-				}
-				if minDaemon == nil {
-					minDaemon = d
-				} else {
-					for k, v := range minDaemon {
-						if o := d[k]; o.Cmp(v) < 0 {
-							minDaemon[k] = o
+					cn := oracle.ConcreteNode{Labels: lbls, Taints: created.Spec.Taints}
+					d := corev1.ResourceList{}
+					for _, dp := range daemons {
+						if oracle.DaemonAdmissible(dp, cn) {
+							oracle.Add(d, oracle.PodRequests(dp))
 						}
 					}
-					for k := range minDaemon {
-						if _, ok := d[k]; !ok {
-							minDaemon[k] = resource.MustParse("0")
+					if minDaemon == nil {
+						minDaemon = d
+					} else {
+						for k, v := range minDaemon {
+							if o := d[k]; o.Cmp(v) < 0 {
+								minDaemon[k] = o
+							}
+						}
+						for k := range minDaemon {
+							if _, ok := d[k]; !ok {
+								minDaemon[k] = resource.MustParse("0")
+							}
 						}
 					}
 				}
 			}
+			return minDaemon
 		}
-		oracle.Add(total, minDaemon)
+		pods := total.DeepCopy()
+		oracle.Add(total, minOver(sent))
 		r.Inc("request_cover_checks")
 		if ok, why := oracle.Fits(total, created.Spec.Resources.Requests); !ok {
-			r.Violate("requests-do-not-cover-pods-and-daemons", "NodeClaim spec.resources.requests is smaller than its pods plus the minimum daemon overhead: "+why, cs,
-				witness(map[string]any{"requests": created.Spec.Resources.Requests, "needed": total}))
+			// root cause classification: the requests were computed over the scheduler's options BEFORE truncation; when the
+			// daemon group with the smallest overhead is truncated away the request no longer covers any type that is sent
+			key := "requests-do-not-cover-pods-and-daemons"
+			pre := pods.DeepCopy()
+			oracle.Add(pre, minOver(preOptions))
+			if okPre, _ := oracle.Fits(pre, created.Spec.Resources.Requests); okPre && len(preOptions) > len(sent) {
+				key += ":cheapest-daemon-overhead-group-truncated-away"
+			}
+			r.Violate(key, "NodeClaim spec.resources.requests is smaller than its pods plus the minimum daemon overhead: "+why, cs,
+				witness(map[string]any{"requests": created.Spec.Resources.Requests, "needed": total, "scheduler_options": preOptions}))
 		}
 	}
 	// 5. template fidelity
